@@ -168,6 +168,7 @@ def gen_extension(rng):
     return t, "complex"
 
 
+EXH_ALPHABET = "019.eEjJxXbo+-_,nNaIf"
 IDCHARS = "0123456789abcdefxXoObBeEjJ.+-_,nNaAiIfFtTyYzZ!?*/<>=&%$@^|\\:#"
 
 
@@ -404,12 +405,17 @@ def run(chk):
         else:
             t, k = gen_ctor_only(rng)
             cases.append((t, k))
-    chk.rule = ("texts = 30% Python literals from the literal grammar (dec/bin/oct/hex integers, point and exponent floats, "
-                "imaginary; optional underscores), 30% documented extensions (separator runs, leading zeros, NaN/Inf with "
-                "sign, case and separator variants, a+bj from floats/ints/specials), 32% near-misses (insert/delete/"
+    import itertools
+    for L in range(1, 5 if thorough else 4):
+        for tup in itertools.product(EXH_ALPHABET, repeat=L):
+            cases.append(("".join(tup), "exhaustive-short"))
+    chk.extra["exhaustive_short_texts"] = "all texts of length <= %d over %r" % (4 if thorough else 3, EXH_ALPHABET)
+    chk.rule = ("texts = every text of length <= %d over %r, plus generated: 30%% Python literals from the literal grammar (dec/bin/oct/hex integers, point and exponent floats, "
+                "imaginary; optional underscores), 30%% documented extensions (separator runs, leading zeros, NaN/Inf with "
+                "sign, case and separator variants, a+bj from floats/ints/specials), 32%% near-misses (insert/delete/"
                 "duplicate a character, leading separators, fixed edge texts, Unicode digits/spaces, random identifier "
-                "characters), 8% texts only a constructor can receive (whitespace, parentheses); non-trivial = distinct "
-                "text that reads as a number")
+                "characters), 8%% texts only a constructor can receive (whitespace, parentheses); non-trivial = distinct "
+                "text that reads as a number") % (4 if thorough else 3, EXH_ALPHABET)
     NONID = set(" \t\n\r\x0b\x0c()[]{};\"'`~")
     lines = []
     for t, _ in cases:
